@@ -223,6 +223,30 @@ def run_case(res, spec, ne, flag, exprs, label):
     cs_l = "[" + "; ".join(f"({C.zlit(k)}, {C.zlist(cy)})" for k, cy in after["c"]) + "]"
     exprs.append((pre + f"match generate_mesh float_index junc ncells ({st}) {ne} {C.blit(flag)} with None => false | Some (st2, narr) => "
                   f"listlistZ_eqb narr {C.zlistlist(narr)} && vs_eqb (vs st2) {vs_l} && es_eqb (es st2) {es_l} && cs_eqb (cs st2) {cs_l} end", replay))
+    if not flag and len(HYP_EXPRS) < 40:
+        # premises of theorem C09_resample_hyps_cycles_joined (Props/C09.v) on this mesh, and its conclusion on the model's result
+        hyp = f"resample_hyps float_index {L['juncs']} {ne} ({st})"
+        HYP_EXPRS.append((pre + hyp, pre + f"implb ({hyp}) match generate_mesh float_index junc ncells ({st}) {ne} false with "
+                          "None => false | Some (st2, _) => cycles_joined st2 end"))
+
+
+HYP_EXPRS = []
+
+
+def settle_hyps(res):
+    """how many of the resampled meshes meet the executable premises of the cycle-edge theorem (evidence of non-vacuity, not a verdict)"""
+    if not HYP_EXPRS:
+        return
+    exprs = [h for h, _ in HYP_EXPRS] + [i for _, i in HYP_EXPRS]
+    n = len(HYP_EXPRS)
+    del HYP_EXPRS[:]
+    bools, _ = C.coq_eval_bools("C11h", IMPORTS, exprs, chunk=10)
+    hold = sum(1 for b in bools[:n] if b is True)
+    res.extra["resample_cycle_edge_theorem"] = {"meshes_evaluated": n, "premises_hold": hold,
+                                                "conclusion_holds_where_premises_hold": sum(1 for b in bools[n:] if b is True)}
+    if any(b is False for b in bools[n:]):
+        res.fail("proof", "premises of C09_resample_hyps_cycles_joined hold on a mesh whose modelled result has an unjoined cycle step",
+                 {"obligation": "C09_resample_hyps_cycles_joined (evaluated instance contradicts the theorem)"})
 
 
 def tissues(rng, tier):
@@ -279,6 +303,7 @@ def run(res, tier, seed):
         res.fail("oracle", "int(len/ne*i) is not strictly increasing within [0,len-2] for some (len,ne)", {"sweep": True})
     bools, outs = C.coq_eval_bools("C11", IMPORTS, [e for e, _ in exprs], chunk=12)
     settle_chain_cases(res, bools)
+    settle_hyps(res)
     for (e, rp), b in zip(exprs, bools):
         res.traces += 1
         if b is not True:
